@@ -69,9 +69,13 @@ def run(tier, seed):
     # simulation: long random histories
     nsim, dsim = (300, 40) if tier == "quick" else (4000, 60)
     sim_states = 0
-    for mx in (1, 2):
-        c = dict(Peers=PEERS, Max=mx, MaxRuns=60, MaxDepth=1000, Track=True, **CURRENT)
-        edges = os.path.join(work, "admsim%d.ndjson" % mx)
+    for mx in (1, 2, 11):
+        # (11: five receivers behind one slot - queues of three and more, receivers leaving from the middle of the queue)
+        peers = PEERS
+        if mx == 11:
+            mx, peers = 1, '{"a","b","c","d","e"}'
+        c = dict(Peers=peers, Max=mx, MaxRuns=60, MaxDepth=1000, Track=True, **CURRENT)
+        edges = os.path.join(work, "admsim%d_%d.ndjson" % (mx, len(peers)))
         r = vlib.run_tlc('Admission', dict(constants=c, invariants=INVS, action_constraint='Emit'),
                          simulate=nsim, depth=dsim, seed=seed * 100 + mx, edges_path=edges, timeout=900)
         if r['violated']:
